@@ -4,10 +4,11 @@
        the end-of-input rule.  Any behavioural change of scanner.go breaks C16_scanner_is_reference.
    (2) Every public entry point of the model rejects a text that the independent RFC 8259 reader
        (Text.parse) rejects, and accepts every well-formed one of the right shape.
-   Open obligation: the theorem that the reference automaton accepts exactly what Text.parse
-   accepts (automaton = grammar) is compared exhaustively on every run (all strings up to a length
-   bound over the structural alphabet) and is being proved in ScannerCorrect.v. *)
-From JP Require Import Bytes Json Text Strings Den ImplV5 ImplMerge Scan ScannerRef ScannerTie ApplySim Domain.
+   (3) checkValid over the translated scanner accepts a byte string if and only if the reader
+       Text.parse (recursive descent over the RFC 8259 grammar, nesting limit 10000) reads it:
+       ScannerCorrect.v (loop = run of the automaton), ScannerGrammar.v (tokens), ScannerParse.v
+       (values/elements/members by induction on the reader's fuel), for every byte string. *)
+From JP Require Import Bytes Json Text Strings Den ImplV5 ImplMerge Scan ScannerRef ScannerTie ScannerCorrect ScannerGrammar ScannerParse ApplySim Domain.
 From JP.gen Require Import ScannerGen.
 
 Theorem C16_scanner_is_reference : forall s c, step_fn (step s) s c = ref_step s c.
@@ -18,6 +19,11 @@ Theorem C16_eof_is_reference : forall s,
   negb (snd (scanner_eof s) =? scanError)%Z = ref_accepts_at_eof s.
 Proof. exact eof_eq_ref. Qed.
 Print Assumptions C16_eof_is_reference.
+
+(* Valid(bs) of the translated scanner <-> bs is an RFC 8259 text (as read by Text.parse) *)
+Theorem C16_valid_iff_grammar : forall bs, valid_gen bs = true <-> exists t, parse bs = Some t.
+Proof. exact valid_gen_iff_parse. Qed.
+Print Assumptions C16_valid_iff_grammar.
 
 (* the nesting limit of the translated scanner is the one the property names *)
 Theorem C16_nesting_limit : maxNestingDepth = 10000%Z /\ Text.max_depth = 10000%N.
